@@ -2,7 +2,7 @@ HOOKS = {
     "guard": "remoc_verif",
     "enable": "rustflags `--cfg remoc_verif` in /verif/harness/.cargo/config.toml (the harness has a path dependency on /repo/remoc)",
     "baseline_off_cmd": "cd /repo && cargo test --workspace --no-fail-fast --offline",
-    "source_commits": ["45d4eae", "d5addfd", "8a1cdf9"],
+    "source_commits": ["45d4eae", "d5addfd", "8a1cdf9", "25f794a"],
     "add_only": False,
 }
 ENGINES = [
@@ -38,6 +38,15 @@ META = {
     "C07": {"technique": "TLA+ lifecycle model (ChmuxLife, safety + liveness) + TLC trace validation of lifecycle scenarios",
             "text": "TLC explores every drop order / helper-task schedule of one open-request lifecycle incl. Goodbye exchange; recorded teardown "
                     "scenarios must end with both dispatchers Ok, all port numbers reclaimed and no task left.",
+            "note": _chmux_note},
+    "C08": {"technique": "TLA+ verdict function (ChmuxPeer) explored with TLC + scripted-peer conformance (random grammar and TLC-generated behaviours replayed into a real endpoint)",
+            "text": "The receive path is specified as a total function frame x state -> verdict; TLC explores all frame sequences over a finite alphabet; "
+                    "a real endpoint is fed hostile frame sequences (seeded grammar and every TLC-generated behaviour) and must reach exactly the specified verdict, never panic, "
+                    "never exceed its buffer, and fail all local calls after a protocol error.",
+            "note": _chmux_note},
+    "C09": {"technique": "TLA+ statement of the wire format (Wire.tla); TLC-generated complete case table replayed into remoc's codec + TLC trace validation of emitted frames for v2/v3 peers",
+            "text": "Wire.tla states the byte layout independently of the code; TLC enumerates the case table and every vector is encoded and decoded by remoc's codec; "
+                    "all frames emitted in recorded runs are decoded by Wire!Dec and checked for canonical form and version negotiation.",
             "note": _chmux_note},
     "C10": {"technique": "TLA+ lifecycle model (ChmuxLife) + TLC trace validation of connect storms",
             "text": "Exactly-once resolution, pairing and queue bound are invariants of the model; every recorded connect/accept/reject history is "
